@@ -219,7 +219,7 @@ impl Suite for C06Api {
 
     fn generate(&self, seed: u64, tier: &str) -> Vec<Case> {
         let mut r = Rng::new(seed ^ 0xC06A);
-        let n_tables = if tier == "thorough" { 900 } else { 60 };
+        let n_tables = if tier == "thorough" { 400 } else { 60 };
         let mut cases = vec![];
         for ti in 0..n_tables {
             let n = 1 + r.below(if ti % 7 == 0 { 80 } else { 14 }) as usize;
@@ -244,7 +244,7 @@ impl Suite for C06Api {
             }
             if ti % 20 == 3 {
                 // i64::MIN % -1 (F9), also as MIN / -1 and (MIN + 1) / -1 (the conservative guard)
-                let a = vec![i64::MIN, i64::MIN + 1, i64::MIN + 2, 7];
+                let a = vec![i64::MIN, i64::MIN + 1, i64::MIN + 2, i64::MIN + 7]; // narrow range: a wide one is C01's F19
                 let t2 = Table {
                     cols: vec![
                         Col { name: "id".into(), kind: Kind::Int, omit_when_null: false, cells: (0..a.len() as i64).map(V::Int).collect() },
